@@ -1,11 +1,17 @@
 #!/bin/bash
 # tools/mutant.sh <patch.diff> <property id> [tier] : run a check against a scratch copy of /repo
 # with the patch applied (never touches /repo).  Exit status = the check's.
+# optional 4th argument: a commit of /repo to use as the base instead of the working tree
 set -u
 PATCH=$(realpath "$1"); PROP=$2; TIER=${3:-quick}
 D=$(mktemp -d /tmp/petlmon-mut-XXXXXX)
 trap 'rm -rf "$D"' EXIT
-rsync -a --exclude .git --exclude tmp --exclude __pycache__ /repo/ "$D/repo/"
+BASE=${4:-}
+if [ -n "$BASE" ]; then
+  mkdir -p "$D/repo" && git -C /repo archive "$BASE" | tar -x -C "$D/repo" && cp /repo/petl/version.py "$D/repo/petl/version.py"
+else
+  rsync -a --exclude .git --exclude tmp --exclude __pycache__ /repo/ "$D/repo/"
+fi
 ( cd "$D/repo" && patch -p1 -s --no-backup-if-mismatch < "$PATCH" ) || { echo "PATCH-FAILED $PATCH"; exit 3; }
 mkdir -p "$D/ev"
 cd "$(dirname "$0")/.." && PETL_VERIF_REPO="$D/repo" PETL_VERIF_EVIDENCE_DIR="$D/ev" ./check "$PROP" "$TIER" > "$D/out.txt" 2>&1
